@@ -94,11 +94,11 @@ def FieldFits (env : Env) (F : Nat) (c : Ctx) (f : Field) (lit : FieldLit) : Pro
 
 theorem defaultsFields_keys (c : Ctx) (fuel : Nat) (extras : List (String × Val)) : ∀ fs : List Field,
     List.Sublist ((defaultsFields c fuel fs extras).map (·.1)) (fieldNames fs)
-  | [] => by simp [defaultsFields, fieldNames]
+  | [] => by simp [defaultsFields_nil, fieldNames]
   | f :: fs => by
     have ih := defaultsFields_keys c fuel extras fs
     simp only [fieldNames, List.map_cons] at ih ⊢
-    rw [defaultsFields]
+    rw [defaultsFields_cons]
     split
     · exact List.Sublist.cons _ ih
     · simpa using List.Sublist.cons_cons (ucc f.name) ih
@@ -108,12 +108,12 @@ theorem defaultsFields_fit (env : Env) (F : Nat) (c : Ctx) (fuel : Nat) (extras 
     (hnd : (fieldNames all).Nodup) : ∀ fs : List Field, (∀ f ∈ fs, f ∈ all) →
       (∀ f ∈ fs, FieldFits env F c f (defaultsField c fuel f extras)) →
       fieldsFit env F (fmtFields c all) (defaultsFields c fuel fs extras) = true
-  | [], _, _ => by simp [defaultsFields, fieldsFit]
+  | [], _, _ => by simp [defaultsFields_nil, fieldsFit]
   | f :: fs, hsub, hfit => by
     have ih := defaultsFields_fit env F c fuel extras all hnd fs
       (fun x hx => hsub x (List.mem_cons_of_mem _ hx)) (fun x hx => hfit x (List.mem_cons_of_mem _ hx))
     have hf := hfit f List.mem_cons_self
-    rw [defaultsFields]
+    rw [defaultsFields_cons]
     cases hd : defaultsField c fuel f extras with
     | skip => simpa using ih
     | stop => simp [FieldFits, hd] at hf
